@@ -296,7 +296,7 @@ structure Dev where
   pingDummy : Nat := 0
   version : Nat := 0x50010300  -- protocol version word of the ping response (bugfix 0, minor 3, major 1, 'P')
   options : Nat := 0
-  deriving Repr
+  deriving DecidableEq, Repr
 
 def splice (mem : Bytes) (a : Nat) (d : Bytes) : Bytes := mem.take a ++ d ++ mem.drop (a + d.length)
 
@@ -463,6 +463,7 @@ inductive Peer where
   /-- replay: the i-th host write releases the i-th chunk (serial: its concatenation, HID: its reports) -/
   | script (chunks : List (List Bytes))
   | live (d : Dev)
+  deriving DecidableEq
 
 structure Host where
   cfg : Cfg := {}
@@ -477,6 +478,7 @@ structure Host where
   relRev : List (List Bytes) := []
   peer : Peer := .none
   fuelHint : Nat := 0
+  deriving DecidableEq
 
 /-- `device.write(w)` -/
 def Host.write (h : Host) (w : Bytes) : Host :=
@@ -915,5 +917,76 @@ instance (r : Except HErr Val) (h : Host) : Decidable (succeeded r h) := by
     exact if hs : h.status = Spec.stSuccess ∧ v ≠ .none ∧ v ≠ .bool false
       then isTrue ⟨hs.1, v, rfl, hs.2.1, hs.2.2⟩
       else isFalse (by rintro ⟨h1, v', hv, h2, h3⟩; cases hv; exact hs ⟨h1, h2, h3⟩)
+
+/-! ## specification vocabulary (used by Properties/C10.lean) -/
+
+/-- host and live reference device are in step: nothing in flight, device idle, interface open -/
+structure Synced (h : Host) (d : Dev) : Prop where
+  peer : h.peer = .live d
+  idle : d.phase = .idle
+  rxB : h.rxB = []
+  rxR : h.rxR = []
+  opened : h.opened = true
+
+/-- a well-formed reference device without forced errors -/
+structure Dev.OK (d : Dev) : Prop where
+  mp_pos : 0 < d.maxPacket
+  mp_lt : d.maxPacket < 65536
+  mem_lt : d.mem.length < 4294967296
+  nofault : d.faults = []
+  props_lt : ∀ q ∈ d.props, q.2 < 4294967296
+
+/-- result of an operation the device refused with status `st` -/
+def specFail (ce : Bool) (st : Nat) (v : Val) : Except HErr Val := if ce then .error (.cmd st) else .ok v
+
+/-- What the protocol defines as the effect of one operation on the device, its result and the status code
+    (no link faults; `ce` = cmd_exception).  `none`: operation not covered by the refinement theorem. -/
+def specOp (ce : Bool) (d : Dev) : Op → Option (Dev × Except HErr Val × Nat)
+  | .writeMemory a data _ =>
+    let d1 := { d with ncmd := d.ncmd + 1 }
+    if a + data.length ≤ d.mem.length then some ({ d1 with mem := splice d.mem a data }, .ok (.bool true), Spec.stSuccess)
+    else some (d1, specFail ce Spec.stMemoryRangeInvalid (.bool false), Spec.stMemoryRangeInvalid)
+  | .readMemory a n _ _ =>
+    let d1 := { d with ncmd := d.ncmd + 1 }
+    if a + n ≤ d.mem.length then some (d1, .ok (.bytes ((d.mem.drop a).take n)), Spec.stSuccess)
+    else some (d1, specFail ce Spec.stMemoryRangeInvalid .none, Spec.stMemoryRangeInvalid)
+  | .receiveSbFile data _ =>
+    some ({ d with ncmd := d.ncmd + 1, sb := data }, .ok (.bool true), Spec.stSuccess)
+  | .fillMemory a n pat =>
+    let d1 := { d with ncmd := d.ncmd + 1 }
+    if a + n ≤ d.mem.length then some ({ d1 with mem := splice d.mem a (fillPattern n pat) }, .ok (.bool true), Spec.stSuccess)
+    else some (d1, specFail ce Spec.stMemoryRangeInvalid (.bool false), Spec.stMemoryRangeInvalid)
+  | .eraseRegion a n _ =>
+    let d1 := { d with ncmd := d.ncmd + 1 }
+    if a + n ≤ d.mem.length then some ({ d1 with mem := splice d.mem a (List.replicate n 0xFF) }, .ok (.bool true), Spec.stSuccess)
+    else some (d1, specFail ce Spec.stMemoryRangeInvalid (.bool false), Spec.stMemoryRangeInvalid)
+  | .eraseAll _ =>
+    some ({ d with ncmd := d.ncmd + 1, mem := List.replicate d.mem.length 0xFF }, .ok (.bool true), Spec.stSuccess)
+  | .getProperty t _ =>
+    let d1 := { d with ncmd := d.ncmd + 1 }
+    if t = Spec.propMaxPacketSize then some (d1, .ok (.ints [d.maxPacket]), Spec.stSuccess)
+    else match d.props.lookup t with
+      | some v => some (d1, .ok (.ints [v]), Spec.stSuccess)
+      | none => some (d1, specFail ce Spec.stUnknownProperty .none, Spec.stUnknownProperty)
+  | .setProperty t v =>
+    let d1 := { d with ncmd := d.ncmd + 1 }
+    if d.rwProps.contains t then
+      some ({ d1 with props := (t, v) :: d.props.filter (fun q => q.1 != t) }, .ok (.bool true), Spec.stSuccess)
+    else if (d.props.lookup t).isSome ∨ t = Spec.propMaxPacketSize then
+      some (d1, specFail ce Spec.stReadOnlyProperty (.bool false), Spec.stReadOnlyProperty)
+    else some (d1, specFail ce Spec.stUnknownProperty (.bool false), Spec.stUnknownProperty)
+  | _ => none
+
+/-- arguments fit the 32-bit words of a command packet -/
+def Op.argsOK : Op → Prop
+  | .writeMemory a data m => a < 4294967296 ∧ data.length < 4294967296 ∧ m < 4294967296
+  | .readMemory a n m _ => a < 4294967296 ∧ n < 4294967296 ∧ m < 4294967296
+  | .receiveSbFile data _ => data.length < 4294967296
+  | .fillMemory a n p => a < 4294967296 ∧ n < 4294967296 ∧ p < 4294967296
+  | .eraseRegion a n m => a < 4294967296 ∧ n < 4294967296 ∧ m < 4294967296
+  | .eraseAll m => m < 4294967296
+  | .getProperty t i => t < 4294967296 ∧ i < 4294967296
+  | .setProperty t v => t < 4294967296 ∧ v < 4294967296
+  | _ => True
 
 end SpsdkVerif.Mboot
